@@ -7,14 +7,14 @@ CHECKS = {
  "C19": dict(
   level="model_checking", design="§4 C19, spec/GenDir.tla",
   technique="TLA+ model of goag.go Generate (MC_GenDir) enumerated by TLC; every history replayed on the real generator; directories judged by TLC (Trace_GenDir)",
-  text="TLC enumerates every history of invocations (<=3 over the 8 invocations of the property; thorough: length 4, failing invocations, user edits and deletions) of a step-level model of Generate and checks DirMatchesLast / UserUntouched / Idempotent on it; every enumerated history is then executed with the real generator and the recorded directory contents after each run are validated by TLC against the Prop layer (RunOKPost / RunErrPost) - exhaustive at the stated bound on both model and code.",
+  text="TLC enumerates every history of invocations (<=3 over the 8 invocations of the property; thorough: length 4, failing invocations, user edits and deletions) of a step-level model of Generate and checks DirMatchesLast / UserUntouched / Idempotent on it; every enumerated history is then executed with the real generator and the recorded directory contents after each run are validated by TLC against the Prop layer (RunOKPost / RunErrPost) - exhaustive at the stated bound on both model and code. The directory holds two user files from the start, one of them a real Go source file of the package that binds log / fmt / strings to a package of its own (owned files must not depend on it).",
   note="Trusts sha256 for file equality, the measured Fresh(inv) (one run of each invocation into an empty directory), TLC and the harness's directory listing. Flags other than client/api-handler are fixed; the five spec kinds are fixed texts in harness/internal/checks/c19.go."),
 }
 
 CHECKS["C13"] = dict(
   level="model_checking", design="§4 C13, spec/Embed.tla, spec/Pipeline.tla (SpecHit)",
   technique="TLA+ model of encodeRawFileAsString and of Go's string-literal lexer (MC_Embed) checked exhaustively by TLC; every enumerated content embedded by the real generator, constant evaluated with go/types and judged by TLC (Trace_Embed); served half judged by Trace_Embed / Trace_Pipeline on compiled packages",
-  text="Exhaustive on model and code for all contents up to length 4 over the 11-token alphabet of Go-literal-relevant bytes (thorough: length 6 over the 8-token core alphabet), plus seeded random contents and real spec files in several surface forms (one-line JSON, CRLF, no trailing newline, BOM); the served half requests <base>/<spec name> through compiled generated packages with 0-3 middlewares, with and without SpecFileHandler.",
+  text="Exhaustive on model and code for all contents up to length 4 over the 11-token alphabet of Go-literal-relevant bytes (thorough: length 6 over the 8-token core alphabet), plus seeded random contents and real spec files in several surface forms (one-line JSON, CRLF, no trailing newline, BOM); the served half requests <base>/<spec name> through compiled generated packages with 0-3 middlewares, with and without SpecFileHandler; the served texts contain format verbs and template actions (100%, %d, %%, {{ .Name }}, ${HOME}).",
   note="The compiled constant is computed by go/parser + go/types constant folding (same semantics as the compiler). Bytes outside the token alphabet are ordinary characters for Go's literal syntax. TLC, the tokenizer and the driver are trusted.")
 CHECKS["C03"] = dict(
   level="model_checking", design="§4 C03, spec/Router.tla, spec/Pipeline.tla",
@@ -42,7 +42,7 @@ CHECKS["C17"] = dict(
 CHECKS["C04"] = dict(
   level="model_checking", design="§4 C04, spec/Params.tla, spec/MC_Params.tla, spec/Trace_Params.tla",
   technique="TLA+ model of the generated parameter parse order checked against set-valued admissible outcomes by TLC (MC_Params); the TLC-enumerated declaration matrix generated, compiled and requested with every lexeme-class supply; Parse() results judged by TLC (Trace_Params)",
-  text="Design check: every pair of declarations (location x type x array x required) x every supply of <= 2 lexeme classes - the generated order (query, header; required -> cardinality -> lexical parse; first error wins) always yields an outcome the Prop layer admits. Conformance: the 48 base declarations x {inline, schema $ref, component parameter} x {operation, path-item, overridden} levels (plus two-parameter operations) are pre-flighted, packed and requested with absent / every class / every pair of classes (thorough: triples); TLC validates ok/error, the named parameter, typed tokens and unset optionals.",
+  text="Design check: every pair of declarations (location x type x array x required) x every supply of <= 2 lexeme classes - the generated order (query, header; required -> cardinality -> lexical parse; first error wins) always yields an outcome the Prop layer admits. Conformance: the 48 base declarations x {inline, schema $ref, component parameter} x {operation, path-item, overridden by the operation, declared by the path item while two sibling operations re-declare it differently} levels (plus two-parameter operations) are pre-flighted, packed and requested with absent / every class / every pair of classes (thorough: triples); TLC validates ok/error, the named parameter, typed tokens and unset optionals.",
   note="Lexeme classes are defined by strconv / time.Parse on uncontroversial representatives (DESIGN §11, A.5). Header arrays, nullable and non-primitive parameters are outside the matrix. Struct fields are bound to parameters by normalised name. TLC and the reflective driver are trusted.")
 CHECKS["C05"] = dict(
   level="model_checking", design="§4 C05, spec/MC_PathParams.tla, spec/Params.tla, spec/Trace_Params.tla",
@@ -80,10 +80,10 @@ CHECKS["C07"] = dict(
   text="Same executions as C06; the judge is not goag's decoder: Valid(schema, tree) checks required present, null only where nullable, names exactly the declared ones (or map keys), JSON types and formats (int32 range, RFC 3339), oneOf exactly one variant; Match additionally checks unset optionals omitted, null nullables written as null, allOf merged into one object and map entries under their own keys with the value's own leaf tokens.",
   note=CODEC_NOTE + " Response bodies and client request bodies on the wire are judged with the same operators by the C02/C09/C10 checks.")
 CHECKS["C08"] = dict(
-  level="model_checking", design="§4 C08, spec/Codec.tla (JEquiv), spec/Trace_Codec.tla",
-  technique="documents and single-fault mutants generated from the schema (not from goag's encoder); real UnmarshalJSON + re-encoding; losslessness (Codec.JEquiv) and strictness judged by TLC (Trace_Codec)",
-  text="For every building schema of the C06 universe: seeded valid documents (optional subsets, null where allowed, additional properties, undeclared extras on silent schemas, discriminator set to the variant's tag) must decode and re-encode to an equivalent document (key order ignored, extras kept under explicit additionalProperties); every mutant that drops one required key or swaps one declared property to another JSON type must be rejected with an error naming the property.",
-  note=CODEC_NOTE + " null for a non-nullable property is not judged; type swaps are between distinct JSON types only.")
+  level="model_checking", design="§4 C08, §17.6, spec/Codec.tla (JEquiv), spec/Trace_Codec.tla, spec/Reader.tla, spec/MC_Reader.tla, spec/Trace_Reader.tla",
+  technique="documents and single-fault mutants generated from the schema (not from goag's encoder); real UnmarshalJSON + re-encoding; losslessness (Codec.JEquiv) and strictness judged by TLC (Trace_Codec); plus the reader walk: the step-level TLA+ model of unmarshalJSONInnerBody (Reader.tla) is model-checked against its Prop layer and every object of its universe x documents over its keys is replayed on the real generated code and judged by TLC (Trace_Reader)",
+  text="For every building schema of the C06 universe: seeded valid documents (optional subsets, null where allowed, additional properties, undeclared extras on silent schemas, discriminator set to the variant's tag) must decode and re-encode to an equivalent document (key order ignored, extras kept under explicit additionalProperties); every mutant that drops one required key or swaps one declared property to another JSON type must be rejected with an error naming the property. Reader walk: for every object of MC_Reader's universe (own properties required / optional / nullable, allOf members inline / embedded / nested, typed additionalProperties) and documents giving every key the status absent / value / null / wrong type, the real decoder's outcome (accepted or not, the key the error names, which fields hold the value / null / the zero value, which keys land in AdditionalProperties) must equal what the reader machine computes.",
+  note=CODEC_NOTE + " null for a non-nullable property is not judged by the Prop layer (C08 is silent); the reader machine records what the code does with it (zero value) and the walk checks that too. Type swaps are between distinct JSON types only.")
 
 WIRE_NOTE = "Domain restrictions of DESIGN §4 C09 / §11 (path values non-empty and '/'-free, arrays non-empty, header values visible ASCII, times as instants, finite floats). The client is NewClient(origin + normalised base path, HTTPClient); the HTTPClient records the wire request and serves a fresh server-side copy through API.ServeHTTP in-process. Operations whose generated code does not build are excluded by the pre-flight and counted. Lexical spaces by strconv / time.Parse; TLC and the reflective driver are trusted."
 CHECKS["C09"] = dict(
@@ -98,14 +98,14 @@ CHECKS["C10"] = dict(
   note=WIRE_NOTE + " Default status codes are drawn from 200..499.")
 CHECKS["C02"] = dict(
   level="model_checking", design="§4 C02, spec/Wire.tla (WriteOK, Documented), spec/Trace_Wire.tla",
-  technique="static half: reflection over every package-level named type against each operation's response interface; dynamic half: what the real Write put on the wire (status, Content-Type, header names, body) judged by TLC (Trace_Wire.ServerDone with Wire.WriteOK and Codec.Valid)",
-  text="Static: for every operation of every generated package the number of distinct concrete types implementing its response interface equals the number of response identities the spec documents for it (inline per status, component responses through alias chains, a shared component counted once) - nothing else satisfies the interface. Dynamic: every seeded response value returned by a handler is written with a documented status (the caller's code for default), the documented Content-Type, exactly the declared header names with required ones present, and a body valid for the declared schema.",
-  note=WIRE_NOTE + " Response identity by behaviour and type identity; header values and bodies are compared for equality by C10.")
+  technique="static half: reflection over every package-level named type against each operation's response interface; dynamic half: what the real Write put on the wire (status, Content-Type, header names and values, body) judged by TLC (Trace_Wire.ServerDone with Wire.WriteOK and Codec.Valid)",
+  text="Static: for every operation of every generated package the number of distinct concrete types implementing its response interface equals the number of response identities the spec documents for it (inline per status, component responses through alias chains, a shared component counted once) - nothing else satisfies the interface. Dynamic: every seeded response value returned by a handler is written with a documented status (the caller's code for default), the documented Content-Type, exactly the declared header names with required ones present, every header value as often as the response value says (a scalar once when set, an array once per element, an unset optional not at all) and denoting the Go value in the lexical space of its declared type, and a body valid for the declared schema; raw bodies are declared with varying media types (octet-stream, problem+json, text/plain, json with parameters, merge-patch+json) and must carry exactly that Content-Type.",
+  note=WIRE_NOTE + " Response identity by behaviour and type identity; Bodies are compared for equality by C10; each event of a call is judged on its own (a rejected write does not hide the caller-side judgement of C10).")
 
 CHECKS["C14"] = dict(
   level="exploration", design="§4 C14, §12, spec/Pipeline.tla (no Panic action, SingleWrite), spec/MC_Pipeline.tla, spec/Trace_Answer.tla",
   technique="structured near-miss mutation of valid requests plus seeded byte-level random requests against compiled generated packages; recover() around ServeHTTP and Parse(), counting ResponseWriter; NoPanic / SingleWrite judged by TLC (Trace_Answer); step model of ServeHTTP checked by TLC (MC_Pipeline: NoPanic, SingleWrite)",
-  text="For every pre-flighted operation of the wire universe (typed path / query / header parameters, JSON, raw and component request bodies, security on every fifth, rotating base-path forms) a valid request is mutated structurally: every truncation of the path, doubled / missing slashes, base-path near misses, empty path, '*', a 6000-character path, odd methods, empty / duplicated / malformed / huge query strings and headers, twelve classes of broken JSON bodies; plus 50 000 (thorough 750 000) seeded random requests near the declared shapes incl. a kitchen-sink spec with security, CORS and spec file; every handler calls Parse(). Absence of panics is observed on explored inputs, not proven (exploration).",
+  text="For every pre-flighted operation of the wire universe (typed path / query / header parameters, JSON, raw and component request bodies, security on every fifth, rotating base-path forms) a valid request is mutated structurally: every truncation of the path, doubled / missing slashes, base-path near misses, empty path, '*', a 6000-character path, odd methods, empty / duplicated / malformed / huge query strings and headers, twelve classes of broken JSON bodies, documents generated from the body schema (optional properties present / absent, 0-2 additional properties, explicit nulls) and their single-fault mutants, a ResponseWriter whose writes fail and a cancelled context; plus 50 000 (thorough 750 000) seeded random requests near the declared shapes incl. a kitchen-sink spec with security, CORS and spec file; every handler calls Parse(). Absence of panics is observed on explored inputs, not proven (exploration).",
   note="Requests are http.Request values served in-process (arbitrary URL.Path, RawQuery, headers, body). Go's coverage-guided fuzzer is not used in this build; the random part is seeded generation. The driver summarises random batches (counts + first offenders), structured cases are judged one by one.")
 CHECKS["C18"] = dict(
   level="model_checking", design="§4 C18, spec/Refs.tla, spec/MC_Refs.tla, spec/Trace_Refs.tla",
@@ -114,8 +114,8 @@ CHECKS["C18"] = dict(
   note="A wire pair is compared when both clients were given equal request values. oneOf variants stay references. Three open findings (hoisted non-object property schemas, array headers in components.headers, component request bodies with inline object schema) carry TLA+ selectors; one defect (component request body dropping JSON methods) was repaired.")
 CHECKS["C20"] = dict(
   level="model_checking", design="§4 C20, spec/Concurrent.tla, spec/Trace_Concurrent.tla",
-  technique="TLA+ model of N interleaved request machines checked by TLC over all interleavings of 4 requests (Isolated, SharedReadOnly); the linearized event log of 16-64 goroutines driving one API and one Client validated by TLC (Trace_Concurrent) as a behaviour of that model; Go race detector on the same executions",
-  text="Rounds of 16-64 goroutines x 4 calls (GOMAXPROCS 1/4/16, yields in every call-back) go through one generated Client into one generated API (packed wire operations: parameters, JSON and raw bodies, 2 middlewares); every leaf of every request and response is unique to its call; events are appended under one mutex with a global sequence number. TLC checks that every event is a step of its own request's machine, that the template visible to middlewares and handler is the request's own, parsed = sent and returned = responded per request. The binaries are built with -race; any report is a violation.",
+  technique="TLA+ model of N interleaved request machines (Call -> Chain -> Auth -> Parse -> Respond -> Return; switches for shared scratch values and for appending to the shared Middlewares slice) checked by TLC over all interleavings of 4 requests (Isolated, SharedReadOnly); the linearized event log of 16-64 goroutines driving one API and one Client validated by TLC (Trace_Concurrent) as a behaviour of that model; Go race detector on the same executions",
+  text="Rounds of 16-64 goroutines x 4 calls (GOMAXPROCS 1/4/16, yields in every call-back) go through one generated Client into one generated API (packed wire operations: parameters, JSON and raw bodies, a third each secured by a bearer scheme / an apiKey-in-header scheme / nothing with per-request unique credentials, 2 or 3 middlewares registered by append so that API.Middlewares has spare capacity); every leaf of every request and response is unique to its call; events are appended under one mutex with a global sequence number. TLC checks that every event is a step of its own request's machine, that the template visible to middlewares and handler is the request's own, that the authenticator that runs is the one of the request's operation and sees the request's own credential, parsed = sent and returned = responded per request. The binaries are built with -race; any report is a violation.",
   note="Goroutine schedules are sampled, not enumerated; the model enumerates the interleavings of 4 abstract requests. 'No unsynchronised access' is decided by the race detector, outside TLA+.")
 
 NOT_YET = {}
